@@ -60,5 +60,7 @@ package integrationdiagram
 //@   assert @call:dynamic [handler-gets-call-statements-with-owner] arg0 == appname && arg1 == epname && arg2 == stmt && tagof(stmt.Stmt) == typeid("*sysl.Statement_Call")
 //@   assert @call:integrationdiagram.ProcessCalls [same-owner-and-handler] arg0 == appname && arg1 == epname && arg3 == fn
 //@   assert @call:integrationdiagram.ProcessCalls [descends-into-own-children] (tagof(at("kind", callresult)) == typeid("*sysl.Statement_Cond") ==> arg2 == as("*sysl.Statement_Cond", at("kind", callresult)).Cond.GetStmt()) && (tagof(at("kind", callresult)) == typeid("*sysl.Statement_Loop") ==> arg2 == as("*sysl.Statement_Loop", at("kind", callresult)).Loop.GetStmt()) && (tagof(at("kind", callresult)) == typeid("*sysl.Statement_LoopN") ==> arg2 == as("*sysl.Statement_LoopN", at("kind", callresult)).LoopN.GetStmt()) && (tagof(at("kind", callresult)) == typeid("*sysl.Statement_Foreach") ==> arg2 == as("*sysl.Statement_Foreach", at("kind", callresult)).Foreach.GetStmt()) && (tagof(at("kind", callresult)) == typeid("*sysl.Statement_Group") ==> arg2 == as("*sysl.Statement_Group", at("kind", callresult)).Group.GetStmt())
+//@   loop 0 invariant [index-in-range] rangeindex + 1 <= len(stmts)
+//@   ensures [all-statements-traversed] rangeindex + 1 >= len(stmts)
 //@   mark @after:sysl.(*Statement).GetStmt#1 kind
 //@   loop 0 step [every-call-and-container-visited] tagof(at("kind", callresult)) == typeid("*sysl.Statement_Call") || tagof(at("kind", callresult)) == typeid("*sysl.Statement_Cond") || tagof(at("kind", callresult)) == typeid("*sysl.Statement_Loop") || tagof(at("kind", callresult)) == typeid("*sysl.Statement_LoopN") || tagof(at("kind", callresult)) == typeid("*sysl.Statement_Foreach") || tagof(at("kind", callresult)) == typeid("*sysl.Statement_Group") ==> ghost("descended")
